@@ -87,6 +87,33 @@ def evaluate(case):
             fails.append("transform uncertainty depends on the data: integer-typed data give a different (truncated) uncertainty")
     except Exception as ex:  # noqa: BLE001
         fails.append(f"integer-typed data with float uncertainties raise {type(ex).__name__}")
+    # the 24 named transforms: the returned uncertainty is the same first-order propagation, through the input conversion, the core
+    # transform and the output conversion — whichever named entry point is used (one of them per case)
+    if hi is None and len(x) >= 2 and (x > 0).all():
+        cvn = impl.obj("Converter")
+        RS, QS = ["g", "G", "GK"], ["S", "F", "FK", "DCS"]
+        names = [(a, b) for a in QS for b in RS] + [(a, b) for a in RS for b in QS]
+        X, Y = names[(len(x) * 7 + len(xo) * 3 + int(case["lorch"])) % len(names)]
+        mat = {"rho": 0.03 * (1 + len(x) % 5), "<b_coh>^2": 1.5 + (len(xo) % 4), "<b_tot^2>": 2.5}
+        q2r = X in QS
+        core_in, core_out = ("F", "G") if q2r else ("G", "F")
+        with np.errstate(all="ignore"):
+            e_core = e if X == core_in else np.asarray(getattr(cvn, f"{X}_to_{core_in}")(x, y, e, **mat)[1], dtype=float)
+            fw = lorch_weight(x, np.pi / float(x.max())) if case["lorch"] else np.ones_like(x)
+            wts = weights(x)
+            ex_core = np.array([np.sqrt(np.sum((wts * fw * e_core * np.sin(x * t)) ** 2)) for t in xo]) * ((2 / np.pi) if q2r else 1.0)
+            ex_out = ex_core if Y == core_out else np.asarray(getattr(cvn, f"{core_out}_to_{Y}")(xo, np.zeros_like(xo), ex_core, **mat)[1], dtype=float)
+            dkey = {"S": "dsq", "F": "dfq", "FK": "dfq_keen", "DCS": "ddcs", "g": "dgr", "G": "dgr", "GK": "dgr"}[X]
+            try:
+                un = np.asarray(getattr(tr, f"{X}_to_{Y}")(x, y, xo, **{dkey: e}, **mat, **kw)[2], dtype=float)
+                tol_n = 1e-9 * (float(np.abs(ex_out).max()) + 1e-300)
+                bad = (un < ex_out - tol_n) | (un > np.sqrt(2) * ex_out + tol_n)
+                if un.shape != ex_out.shape or bad.any():
+                    j = int(np.argmax(bad)) if un.shape == ex_out.shape else 0
+                    fails.append(f"{X}_to_{Y}: uncertainty {un[j] if un.shape == ex_out.shape else un.shape!r} at x'={xo[j]!r} is outside [1, sqrt2] x the exact "
+                                 f"propagation {ex_out[j]!r} through input conversion, core transform and output conversion")
+            except TypeError as ex:
+                fails.append(f"{X}_to_{Y}: does not accept its documented uncertainty keyword {dkey} ({str(ex)[:60]})")
     # ... and only on the *values* of the output grid: bin numbers / whole-number abscissae held in an integer array give the
     # uncertainties of the same grid held as floats
     xw = np.arange(1, 2 + len(xo) % 4, dtype=np.int64)
